@@ -140,7 +140,10 @@ Definition activity_cmps : list cmp := [CItem F_Object].
 Definition actor_cmps : list cmp := [CItem F_Inbox; CItem F_Outbox; CItem F_Liked; CNlvSet F_PreferredUsername].
 Definition collection_cmps : list cmp :=
   [CUint F_TotalItems; CItem F_Current; CItem F_First; CItem F_Last; CCollItems].
-Definition page_cmps : list cmp :=
+(* (current, first and last are compared by the collection comparison the page methods delegate to; the pinned tree
+   compared them a second time here, which doubled the work per level of a chain of pages) *)
+Definition page_cmps : list cmp := [CItem F_PartOf; CItem F_Next; CItem F_Prev].
+Definition page_cmps_pinned : list cmp :=
   [CItem F_PartOf; CItem F_Current; CItem F_First; CItem F_Last; CItem F_Next; CItem F_Prev].
 Definition ordered_cmps : list cmp := [COrdItems].
 Definition link_cmps : list cmp :=
